@@ -1,0 +1,18 @@
+//go:build verif
+// +build verif
+
+package chained_bft
+
+import (
+	xuperp2p "github.com/xuperchain/xupercore/protos"
+)
+
+// Thin exported wrappers for the /verif harness (build tag verif only, no behaviour change):
+// the smr message handlers are normally started as goroutines by the network loop, which
+// gives a monitor no way to know when a message has been processed.
+
+// VerifHandleProposal runs the proposal handler synchronously.
+func (s *Smr) VerifHandleProposal(msg *xuperp2p.XuperMessage) { s.handleReceivedProposal(msg) }
+
+// VerifHandleVote runs the vote handler synchronously.
+func (s *Smr) VerifHandleVote(msg *xuperp2p.XuperMessage) error { return s.handleReceivedVoteMsg(msg) }
